@@ -68,3 +68,146 @@ Section Events.
     apply nest_logging.
   Qed.
 End Events.
+
+(* ---- stream twin ---- *)
+Section SChainProofs.
+  Context {Srv SS E : Type}.
+  Notation sinterceptor := (sinterceptor Srv SS E).
+  Notation shandler := (shandler Srv SS E).
+
+  Lemma get_schain_suffix (pre : list sinterceptor) (i : sinterceptor) (post : list sinterceptor) (h : shandler) :
+    get_schain (length post) (pre ++ i :: post) (length pre) h = snest post h.
+  Proof.
+    revert pre i. induction post as [|j post IH]; intros pre i; [reflexivity|].
+    cbn [length get_schain snest fold_right].
+    replace (length pre + 1) with (length (pre ++ [i])) by (rewrite app_length; cbn; lia).
+    replace (pre ++ i :: j :: post) with ((pre ++ [i]) ++ j :: post) by (rewrite <- app_assoc; reflexivity).
+    rewrite nth_error_app2 by lia. rewrite Nat.sub_diag. cbn [nth_error].
+    rewrite IH. reflexivity.
+  Qed.
+
+  Theorem schain_is_nest (i0 : sinterceptor) (rest : list sinterceptor) (c : sinterceptor) :
+    schain (i0 :: rest) = Some c -> forall (srv : Srv) (ss : SS) (h : shandler), c srv ss h = snest (i0 :: rest) h srv ss.
+  Proof.
+    unfold schain. intros H srv ss h. injection H as <-.
+    cbn [length]. rewrite Nat.sub_0_r.
+    pose proof (get_schain_suffix [] i0 rest h) as E0. cbn [app length] in E0.
+    rewrite E0. reflexivity.
+  Qed.
+
+  Theorem schain_empty : schain (@nil sinterceptor) = None.
+  Proof. reflexivity. Qed.
+End SChainProofs.
+
+(* stream twin of the event order: a logging stream interceptor *)
+Section SEvents.
+  Context {Srv SS : Type}.
+  Definition slogging (tag : nat) : sinterceptor Srv SS (nat * list event) :=
+    fun srv ss k => let (e, l) := k srv ss in (e, Pre tag :: l ++ [Post tag]).
+  Definition sfinal_of (f : Srv -> SS -> nat) : shandler Srv SS (nat * list event) :=
+    fun srv ss => (f srv ss, [Handler]).
+
+  Lemma snest_logging tags f srv ss :
+    snest (map slogging tags) (sfinal_of f) srv ss =
+    (f srv ss, map Pre tags ++ [Handler] ++ map Post (rev tags)).
+  Proof.
+    induction tags as [|t tags IH]; [reflexivity|].
+    cbn [map snest fold_right]. unfold slogging at 1.
+    change (fold_right (fun i k => fun srv ss => i srv ss k) (sfinal_of f) (map slogging tags))
+      with (snest (map slogging tags) (sfinal_of f)).
+    rewrite IH. cbn [rev]. rewrite map_app. cbn [map app].
+    f_equal. f_equal. rewrite <- !app_assoc. reflexivity.
+  Qed.
+
+  Theorem schain_event_order t0 tags c f srv ss :
+    schain (map slogging (t0 :: tags)) = Some c ->
+    c srv ss (sfinal_of f) = (f srv ss, map Pre (t0 :: tags) ++ [Handler] ++ map Post (rev (t0 :: tags))).
+  Proof.
+    intro H. cbn [map] in H. rewrite (schain_is_nest _ _ _ H).
+    change (slogging t0 :: map slogging tags) with (map slogging (t0 :: tags)).
+    apply snest_logging.
+  Qed.
+End SEvents.
+
+(* ---- installation and call sites ---- *)
+Section SiteProofs.
+  Context {A B : Type}.
+  Notation interceptor := (interceptor A B).
+  Notation handler := (handler A B).
+
+  (* the last option that touches the field decides *)
+  Lemma installed_app_single (opts : list (sopt A B)) (i : interceptor) :
+    installed (opts ++ [OSingle i]) = Some (Some i).
+  Proof. unfold installed. rewrite fold_left_app. reflexivity. Qed.
+
+  Lemma installed_app_chain (opts : list (sopt A B)) (is : list interceptor) :
+    installed (opts ++ [OChain is]) = Some (chain is).
+  Proof. unfold installed. rewrite fold_left_app. reflexivity. Qed.
+
+  Lemma installed_app_other (opts : list (sopt A B)) :
+    installed (opts ++ [OOther]) = installed opts.
+  Proof. unfold installed. rewrite fold_left_app. reflexivity. Qed.
+
+  Lemma fold_other (opts : list (sopt A B)) cur :
+    Forall (fun o => o = OOther) opts -> fold_left apply_opt opts cur = cur.
+  Proof.
+    revert cur. induction opts as [|o opts IH]; intros cur HF; [reflexivity|].
+    inversion HF as [|? ? Ho HF']; subst. cbn. apply IH. exact HF'.
+  Qed.
+
+  (* no interceptor option: the handler is called directly, exactly once *)
+  Theorem site_none (opts : list (sopt A B)) (h : handler) (a : A) :
+    Forall (fun o => o = OOther) opts -> site (installed opts) h a = Some (h a).
+  Proof. intro HF. unfold installed. rewrite fold_other by exact HF. reflexivity. Qed.
+
+  (* single interceptor, then options that do not touch the field *)
+  Theorem site_single (pre post : list (sopt A B)) (i : interceptor) (h : handler) (a : A) :
+    Forall (fun o => o = OOther) post ->
+    site (installed (pre ++ OSingle i :: post)) h a = Some (i h a).
+  Proof.
+    intro HF. unfold installed. rewrite fold_left_app. cbn [fold_left apply_opt].
+    rewrite fold_other by exact HF. reflexivity.
+  Qed.
+
+  (* chain: the RPC runs the nesting, in registration order, around the handler *)
+  Theorem site_chain (pre post : list (sopt A B)) (i0 : interceptor) (rest : list interceptor) (h : handler) (a : A) :
+    Forall (fun o => o = OOther) post ->
+    site (installed (pre ++ OChain (i0 :: rest) :: post)) h a = Some (nest (i0 :: rest) h a).
+  Proof.
+    intro HF. unfold installed. rewrite fold_left_app. cbn [fold_left apply_opt].
+    rewrite fold_other by exact HF.
+    destruct (chain (i0 :: rest)) as [c|] eqn:Ec; [|discriminate Ec].
+    cbn [site]. rewrite (chain_is_nest _ _ _ Ec). reflexivity.
+  Qed.
+
+  (* what every stage changes is what the next stage receives, and what it
+     makes of the result is what the previous stage gets back *)
+  Definition pre_all (ps : list ((A -> A) * (B -> B))) (a : A) : A := fold_left (fun x p => fst p x) ps a.
+  Definition post_all (ps : list ((A -> A) * (B -> B))) (b : B) : B := fold_right (fun p y => snd p y) b ps.
+
+  Lemma nest_transform (ps : list ((A -> A) * (B -> B))) (h : handler) (a : A) :
+    nest (map (fun p => transform (fst p) (snd p)) ps) h a = post_all ps (h (pre_all ps a)).
+  Proof.
+    revert a. induction ps as [|p ps IH]; intro a; [reflexivity|].
+    cbn [map nest fold_right]. unfold transform at 1.
+    change (fold_right (fun i k => i k) h (map (fun p0 => transform (fst p0) (snd p0)) ps))
+      with (nest (map (fun p0 => transform (fst p0) (snd p0)) ps) h).
+    rewrite IH. reflexivity.
+  Qed.
+
+  Theorem chain_transform p0 (ps : list ((A -> A) * (B -> B))) c (h : handler) (a : A) :
+    chain (map (fun p => transform (fst p) (snd p)) (p0 :: ps)) = Some c ->
+    c h a = post_all (p0 :: ps) (h (pre_all (p0 :: ps) a)).
+  Proof.
+    intro H. cbn [map] in H. rewrite (chain_is_nest _ _ _ H).
+    change (transform (fst p0) (snd p0) :: map (fun p => transform (fst p) (snd p)) ps)
+      with (map (fun p => transform (fst p) (snd p)) (p0 :: ps)).
+    apply nest_transform.
+  Qed.
+
+  (* client side: zero or one interceptor around invoke / newStream *)
+  Theorem client_site_none (invoke : handler) (a : A) : client_site None invoke a = invoke a.
+  Proof. reflexivity. Qed.
+  Theorem client_site_some (i : interceptor) (invoke : handler) (a : A) : client_site (Some i) invoke a = i invoke a.
+  Proof. reflexivity. Qed.
+End SiteProofs.
